@@ -142,3 +142,117 @@ def c_totals(c):
         return [("global_fanout_is_the_product_over_visited_parents", L.v("global_fanout") == PF(parents.arr, L.k))]
 
     c.invariant("L0", inv_fanout)
+
+
+# ==== ArchNode.iterate_hierarchically: WHICH nodes are the parents of a node ================================
+# (whole function, recursive generator with an in-out parents list; trees of Hierarchical / Fork / leaves --
+#  Array nodes are outside this contract and stay with the bounded tree check)
+S2 = "accelforge/frontend/arch/structure.py"
+P.field("nodes", SEQ(OBJ("?")))
+P.field_owners["name"] = ["Leaf", "Array"]
+P.generic_seq_mem(Ref)
+LO = Function("leaf_lo", Ref, IntSort())
+HI = Function("leaf_hi", Ref, IntSort())
+LEAFAT = Function("leaf_at", IntSort(), Ref)
+CIDX = Function("child_index_of_leaf", Ref, IntSort(), IntSort())
+HEIGHT = Function("height", Ref, IntSort())
+VIS = Function("is_parent_within", Ref, IntSort(), IntSort(), BoolSort())   # VIS(b, u, t): leaf u is a parent of leaf t, both below b
+EXPO = Function("is_exported_from", Ref, IntSort(), BoolSort())            # EXPO(b, u): leaf u below b is a parent of what follows b
+is_hier = lambda r: archmodel.is_a(P, r, "Hierarchical")
+is_fork = lambda r: archmodel.is_a(P, r, "Fork")
+is_leaf = lambda r: archmodel.is_a(P, r, "Leaf")
+
+
+def tree_axioms2(ex):
+    NA, NN = ex.heap_arrays("nodes", ex.heap0_view())
+    b, x = Consts("wb wx", Ref)
+    i, j, t, u = Ints("wi wj wt wu")
+    ch = lambda b_, i_: Select(Select(NA, b_), i_)
+    m = lambda b_: Select(NN, b_)
+    kid = ch(b, i)
+    A = []
+    A.append(("children", ForAll([b, i], Implies(And(is_hier(b), i >= 0, i < m(b)), And(
+        kid != NULL, P.alloc0(kid), Or(is_hier(kid), is_leaf(kid)), Not(And(is_hier(kid), is_leaf(kid))), LO(b) <= LO(kid), HI(kid) <= HI(b), LO(kid) <= HI(kid), HEIGHT(kid) < HEIGHT(b), HEIGHT(kid) >= 0,
+        Implies(i + 1 < m(b), HI(kid) == LO(ch(b, i + 1))), Implies(i == 0, LO(kid) == LO(b)), Implies(i == m(b) - 1, HI(kid) == HI(b)))), patterns=[ch(b, i)])))
+    A.append(("children_ordered", ForAll([b, i, j], Implies(And(is_hier(b), i >= 0, i < j, j < m(b)), HI(ch(b, i)) <= LO(ch(b, j))), patterns=[z3.MultiPattern(ch(b, i), ch(b, j))])))
+    A.append(("branch", ForAll([b], Implies(is_hier(b), And(m(b) >= 0, LO(b) <= HI(b), LO(b) >= 0, Implies(m(b) == 0, HI(b) == LO(b)), HEIGHT(b) >= 0)), patterns=[m(b)])))
+    A.append(("leaf", ForAll([x], Implies(is_leaf(x), And(HI(x) == LO(x) + 1, LEAFAT(LO(x)) == x, LO(x) >= 0)), patterns=[LO(x)])))
+    A.append(("child_of_leaf_rank", ForAll([b, t], Implies(And(is_hier(b), LO(b) <= t, t < HI(b)), And(CIDX(b, t) >= 0, CIDX(b, t) < m(b), LO(ch(b, CIDX(b, t))) <= t, t < HI(ch(b, CIDX(b, t))))), patterns=[CIDX(b, t)])))
+    # the statement: parents of a node = the named nodes before it on its path (children of a hierarchy are stacked;
+    # what is inside a Fork is above the rest of that Fork only)
+    ku, kt = ch(b, CIDX(b, u)), ch(b, CIDX(b, t))
+    A.append(("def_exported", ForAll([b, u], Implies(And(is_hier(b), LO(b) <= u, u < HI(b)),
+              EXPO(b, u) == And(Not(is_fork(b)), Or(is_leaf(ku), EXPO(ku, u)))), patterns=[EXPO(b, u)])))
+    A.append(("def_exported_leaf", ForAll([x, u], Implies(is_leaf(x), EXPO(x, u) == (u == LO(x))), patterns=[EXPO(x, u)])))
+    A.append(("def_parent_within", ForAll([b, u, t], Implies(And(is_hier(b), LO(b) <= u, u < t, t < HI(b)),
+              VIS(b, u, t) == If(CIDX(b, u) == CIDX(b, t), VIS(kt, u, t), Or(is_leaf(ku), And(is_hier(ku), Not(is_fork(ku)), EXPO(ku, u))))), patterns=[VIS(b, u, t)])))
+    return A
+
+
+PARS = SEQ(OBJ("?"))
+YIELD = TUP(OBJ("?"), PARS)
+
+
+@P.fn(S2, "ArchNode.iterate_hierarchically", inout=["_parents"])
+def c_iterate(c):
+    self_ = c.arg("self", OBJ("?"))
+    par0 = c.arg("_parents", OPT(PARS), default=None)
+    ex = c.ex
+    c.local("_parents", PARS)
+    s = self_.ref
+    if c.mode == "verify":
+        for nm_, ax in tree_axioms2(ex):
+            c.pre("tree." + nm_, ax)
+    c.pre("self_is_a_node_of_the_tree", And(s != NULL, Or(is_hier(s), is_leaf(s)), Not(And(is_hier(s), is_leaf(s)))))
+    c.decreases(HEIGHT(s))
+    P0 = par0.val if isinstance(par0, VV.OptV) else par0
+    given = Not(par0.isnone) if isinstance(par0, VV.OptV) else BoolVal(True)
+    in_p0 = lambda x: And(given, mem(P0, x))
+    final = c.inout("_parents", PARS)
+    Y = c.yields(SEQ(YIELD))
+    x, = Consts("ix", Ref)
+    k, u = Ints("ik iu")
+    lo, hi = LO(s), HI(s)
+
+    def parents_of(Yv, k_):
+        na, pa, pn = arrs_of(Yv)
+        return Select(na, k_), SeqV(VV.ObjShape("?"), Select(pa, k_), Select(pn, k_))
+
+    def yields_spec(Yv, upto, base_mem):
+        """entries for the leaves lo .. upto-1: the leaf, and as parents exactly the given ones plus its parents below self"""
+        Yv = ex.materialize(Yv)
+        node = lambda k_: parents_of(Yv, k_)[0]
+        pars = lambda k_: parents_of(Yv, k_)[1]
+        return [
+            ("one_entry_per_named_node_in_depth_first_order", And(Yv.n == upto - lo, forall([k], Implies(And(k >= 0, k < Yv.n), node(k) == LEAFAT(lo + k)), patterns=[node(k)]))),
+            ("parents_are_the_given_ones_and_the_nodes_before_it_on_its_path", forall([k, x], Implies(And(k >= 0, k < Yv.n),
+                mem(pars(k), x) == Or(base_mem(x), And(is_leaf(x), lo <= LO(x), LO(x) < lo + k, LEAFAT(LO(x)) == x, VIS(s, LO(x), lo + k)))), patterns=[mem(pars(k), x)])),
+        ]
+
+    def final_spec(fin, upto_children_exported):
+        return forall([x], mem(fin, x) == Or(in_p0(x), upto_children_exported(x)), patterns=[mem(fin, x)])
+
+    exported_all = lambda x_: And(is_leaf(x_), lo <= LO(x_), LO(x_) < hi, LEAFAT(LO(x_)) == x_, EXPO(s, LO(x_)))
+    for nm, _ in [("a", 0)]:
+        pass
+    c.post("one_entry_per_named_node_in_depth_first_order", lambda r: yields_spec(r, hi, in_p0)[0][1])
+    c.post("parents_are_the_given_ones_and_the_nodes_before_it_on_its_path", lambda r: yields_spec(r, hi, in_p0)[1][1])
+    if c.mode == "call":
+        ex.assume(final_spec(final, exported_all))
+        return
+    c.post("callers_list_gains_exactly_the_nodes_that_are_above_what_follows", lambda r: Implies(given, final_spec(c.final("_parents"), exported_all)))
+    NA, NN = ex.heap_arrays("nodes", ex.heap0_view())
+    kids_n = Select(NN, s)
+    kid = lambda j_: Select(Select(NA, s), j_)
+
+    def inv(L):
+        bound = If(L.k < kids_n, LO(kid(L.k)), hi)
+        cur = L.v("_parents")
+        cur = cur.val if isinstance(cur, VV.OptV) else cur
+        exported_so_far = lambda x_: And(is_leaf(x_), lo <= LO(x_), LO(x_) < bound, LEAFAT(LO(x_)) == x_, Or(is_fork(s), EXPO(s, LO(x_))) if False else
+                                         And(CIDX(s, LO(x_)) < L.k, Or(is_leaf(kid(CIDX(s, LO(x_)))), And(is_hier(kid(CIDX(s, LO(x_)))), Not(is_fork(kid(CIDX(s, LO(x_))))), EXPO(kid(CIDX(s, LO(x_))), LO(x_))))))
+        return yields_spec(L.v("__yielded__"), bound, in_p0) + [
+            ("current_parents_are_the_given_ones_and_the_exported_nodes_of_the_children_seen", forall([x], mem(cur, x) == Or(in_p0(x), exported_so_far(x)), patterns=[mem(cur, x)])),
+        ]
+
+    c.invariant("L1", inv)   # L0 is the loop of the Array branch (unreachable under the no-Array precondition)
